@@ -179,6 +179,11 @@ func (p *FloatingIPPlugin) unbind(pod *corev1.Pod) error {
 		return err
 	}
 	key := keyObj.KeyInDB
+	if p.ownedByOtherIncarnation(key, pod) {
+		// a late delete/finish event of an earlier incarnation, the ips now belong to a newer pod of the same name
+		glog.Infof("ignore unbind of %s uid %s, its ips are owned by another incarnation", key, pod.UID)
+		return nil
+	}
 	if p.cloudProvider != nil {
 		ipInfos, err := p.ipam.ByKeyAndIPRanges(key, nil)
 		if err != nil {
@@ -200,6 +205,23 @@ func (p *FloatingIPPlugin) unbind(pod *corev1.Pod) error {
 		return p.unbindDpPod(keyObj, policy, "during unbinding pod")
 	}
 	return p.unbindNoneDpPod(keyObj, policy, "during unbinding pod")
+}
+
+// ownedByOtherIncarnation returns true if the ips of key are recorded with the uid of a pod other than the given one
+func (p *FloatingIPPlugin) ownedByOtherIncarnation(key string, pod *corev1.Pod) bool {
+	if pod.UID == "" {
+		return false
+	}
+	ipInfos, err := p.ipam.ByKeyAndIPRanges(key, nil)
+	if err != nil {
+		return false
+	}
+	for _, ipInfo := range ipInfos {
+		if ipInfo.PodUid != "" && ipInfo.PodUid != string(pod.UID) {
+			return true
+		}
+	}
+	return false
 }
 
 func (p *FloatingIPPlugin) Release(r *ReleaseRequest) error {
